@@ -135,6 +135,11 @@ def liveKeys (rows : List (FRow K α)) : List K := (rows.filter (·.live)).map (
 /-- the number of live partitions stays within the cap -/
 def withinCap (cap : Nat) (rows : List (FRow K α)) : Bool := decide ((distinct (liveKeys rows)).length ≤ cap)
 
+/-- the cap condition after every row: one flag per prefix of `rows` (arriving after `pre`) -/
+def prefixFlags (cap : Nat) : List (FRow K α) → List (FRow K α) → List Bool
+  | _, [] => []
+  | pre, r :: rs => withinCap cap (pre ++ [r]) :: prefixFlags cap (pre ++ [r]) rs
+
 end field
 
 /-! ### which rows count (WHERE) -/
